@@ -26,7 +26,7 @@ try:
     res["suite"] = t.stdout.strip()
     r1 = sh(demo, env=env); res["demo_mutated_exit"] = r1.returncode; res["demo_output"] = r1.stdout[-600:]
     t0 = time.time()
-    c = sh("./check %s --tier %s" % (pid, tier), cwd="/verif", env=dict(os.environ, RICH_SRC=wt))
+    c = sh("./check %s --tier %s" % (pid, tier), cwd=os.environ.get("VERIF_HOME", "/verif"), env=dict(os.environ, RICH_SRC=wt))
     res["check_exit"] = c.returncode; res["check_wall_s"] = round(time.time() - t0, 1)
     vlines = [l[:400] for l in c.stdout.splitlines() if l.startswith(("VIOLATION", "  signature", "KNOWN-FINDING", "MACHINERY", pid))]
     res["check_lines"] = vlines[:14] + [l[:300] for l in c.stdout.splitlines() if l.startswith("DRIFT")][:4]
